@@ -59,7 +59,19 @@ pub mod tower {
 }
 use tower::{layer::Layer, Service};
 // ---- the model of tokio::sync::Semaphore (see the unit's docstring) -----------------------------------------------------------------
-pub mod tokio { pub mod sync {
+pub mod tokio {
+  // tokio::time on the virtual clock of the governor model: a sleep is over when the clock has passed its deadline
+  pub mod time {
+    pub use std::time::Duration;
+    pub struct Sleep { pub deadline: u64 }
+    pub fn sleep(d: Duration) -> Sleep { Sleep { deadline: super::super::NOW_NS.load(std::sync::atomic::Ordering::SeqCst) + d.as_nanos() as u64 } }
+    impl std::future::Future for Sleep {
+        type Output = ();
+        fn poll(self: std::pin::Pin<&mut Self>, _cx: &mut std::task::Context<'_>) -> std::task::Poll<()> { if super::super::NOW_NS.load(std::sync::atomic::Ordering::SeqCst) >= self.deadline { std::task::Poll::Ready(()) } else { std::task::Poll::Pending } }
+    }
+    pub async fn timeout<F: std::future::Future>(d: Duration, f: F) -> Result<F::Output, ()> { let _ = d; Ok(f.await) }
+  }
+  pub mod sync {
     use std::sync::atomic::{AtomicUsize, Ordering};
     use std::sync::Arc;
     #[derive(Debug)] pub struct Semaphore { pub permits: AtomicUsize, pub capacity: usize }
@@ -98,7 +110,8 @@ pub mod tokio { pub mod sync {
     impl OwnedSemaphorePermit { pub fn forget(mut self) { self.n = 0; } }
     impl<'a> Drop for SemaphorePermit<'a> { fn drop(&mut self) { self.sem.permits.fetch_add(self.n, Ordering::SeqCst); } }
     impl Drop for OwnedSemaphorePermit { fn drop(&mut self) { self.sem.permits.fetch_add(self.n, Ordering::SeqCst); } }
-} }
+  }
+}
 use tokio::sync::Semaphore;
 // ---- DashMap: a mutex around an association list -----------------------------------------------------------------------------------------
 pub mod dashmap {
@@ -264,7 +277,8 @@ pub mod harness {
         }
     }
     const P1: PeerId = PeerId([1; 32]);
-    const P2: PeerId = PeerId([2; 32]);
+    // the two peers differ in ONE byte in the middle of their ids: an accounting keyed by a prefix, a suffix or a short hash of the id would merge them
+    const P2: PeerId = { let mut b = [1u8; 32]; b[16] = 2; PeerId(b) };
     pub const REQUESTS: usize = 3;
     pub const STEPS: usize = 6;
     pub const PLAIN_START: bool = false;     // (the thorough tier also starts requests WITHOUT polling them at once)
